@@ -171,7 +171,8 @@ def write_replay(pid, obj):
 class Ctx:
     def __init__(self, pid, tier, seed):
         self.pid, self.tier, self.seed = pid, tier, seed
-        self.work = os.path.join(WORK, pid)
+        # one scratch directory per run: several checks (or tiers of one check) may run at once
+        self.work = os.path.join(WORK, f"{pid}-{tier}-{os.getpid()}")
         shutil.rmtree(self.work, ignore_errors=True)
         os.makedirs(self.work, exist_ok=True)
         self.quick = tier == "quick"
